@@ -15,6 +15,7 @@ THEOREMS = ["C03_break_offset", "C03_jump_target", "C03_finish_last", "C03_strea
 LEVEL = "proof"
 STREAM = "conv.seq"
 CHUNK = 100
+CASE_SECONDS = 60     # as C02: the real optimiser needs about 20 s under ASan for the 1000-event case of the D2 family (convwfox)
 TECHNIQUE = "Lean 4 theorems on the encoder's address arithmetic (loop-break back-patch, loop-back offset, terminator) + well-formedness walker and interpreter run on the real bytes + differential correspondence model<->mdsdrv.cpp"
 LEVEL_TEXT = ("Machine-checked theorems over the model of convert_track for the three places where an address is computed: the back-patched LPB/LPBL offset lands exactly on the "
               "instruction after the loop end (short and long form), the JUMP offset resolves to the position recorded at the loop point, FINISH is the last byte. Second layer (single "
@@ -111,6 +112,22 @@ def cases(rng, tier):
 
 
 outcome_class = c02.outcome_class
+
+SIZE_LIMIT = {"n": 0}
+
+
+def agree(case, impl, model):
+    """correspondence: equal answers; `convwfox` requests (optimised songs beyond the reach of the list-based optimiser
+    model) are decided by the well-formedness oracle on the real bytes alone (as `convox` in C02)"""
+    if case.req.startswith("convwfox ") and model.startswith("MODEL:size-limit"):
+        SIZE_LIMIT["n"] += 1
+        return True
+    return impl == model
+
+
+def judge_notes(cases, impl, judge):
+    if SIZE_LIMIT["n"]:
+        yield "%d `convwfox` cases beyond the reach of the optimiser model: decided by the well-formedness oracle on the real bytes only" % SIZE_LIMIT["n"]
 
 
 def segno_in_loop(req):
